@@ -3,7 +3,7 @@
 /* C07.append_base_username: username := username ++ input (parser, "%40" and encoded userinfo pieces) */
 void harness(void) {
   EDITOR_PROLOGUE
-  sv_t input; input.n = nondet_size(); MAKE_SV(input);
+  ND_SV(input);
   __CPROVER_assume(IN_CLASS(input, ':', '@', '/', '?', '#'));
   __CPROVER_assume(!v0.dash_dot && !old.base.has_opaque_path);
   /* parser state: authority being built, host not yet written */
